@@ -38,6 +38,10 @@ type Obs struct {
 	Frame []string `json:"frame,omitempty"`
 	// Get: effective configuration leaves as seen through App.Get.
 	Get map[string]string `json:"get,omitempty"`
+	// Get2 / ReloadErr: the same after late sources were added and the configuration was
+	// initialised a second time.
+	Get2      map[string]string `json:"get2,omitempty"`
+	ReloadErr string            `json:"reloadErr,omitempty"`
 
 	Events []Ev      `json:"events,omitempty"`
 	Reg    []RegCall `json:"reg,omitempty"`
